@@ -30,7 +30,7 @@ vlib.standard_check({
             "post-processing (default 3/4, minimal 1/4); non-trivial = decorated twins compared",
     "trusted_base": ["Lean 4.33 kernel", "axioms: propext, Classical.choice, Quot.sound only (audited per theorem)",
                      "harness/c11.cpp + designgen.h + Driver/C11.lean", "Gatery.Nodes netlist semantics (tied to the simulator by C03/C08)"],
-    "level_text": "Lean theorems: pass-through nodes and semantics-free record fields are exactly transparent in every netlist for every stimulus; "
+    "level_text": "Lean theorems: pass-through nodes and semantics-free record fields are exactly transparent in every netlist for every stimulus; short-circuiting all chains of pass-through nodes at once (any number, any depth) changes no value, also in clocked netlists at every cycle of stimuli of any length; "
                   "twins of generated designs are compared on the implementation before and after post-processing.",
     "assumptions": ["exported-VHDL behaviour of twins is not yet compared (needs the C02 interpreter)"],
 })
